@@ -5,18 +5,28 @@ import (
 	"fmt"
 	"go/token"
 	"go/types"
+	htmltemplate "html/template"
 	"net/url"
+	"reflect"
+	"regexp"
 	"sort"
 	"strings"
 	"testing"
+	texttemplate "text/template"
 	"time"
 
 	"github.com/octohelm/gengo/pkg/gengo"
 	"github.com/octohelm/gengo/pkg/gengo/snippet"
 	"github.com/octohelm/gengo/pkg/namer"
+	gengotypes "github.com/octohelm/gengo/pkg/types"
 	"pgregory.net/rapid"
 
 	"vt/internal/ev"
+	"vt/internal/fx/alpha"
+	betav1 "vt/internal/fx/beta/v1"
+	kit1 "vt/internal/fx/one/go-kit"
+	kit2 "vt/internal/fx/two/go-kit"
+	yamlv3 "vt/internal/fx/yaml.v3"
 )
 
 // ---- C03: import block = referenced packages under unique valid names ----
@@ -293,7 +303,70 @@ func oracleC03Tracker(c c3Case) error {
 	if err := c3RenderFile(c, second, built, usedBy); err != nil {
 		return fmt.Errorf("second file (target %s, same snippet values): %w", second, err)
 	}
-	return c3ValueImports(c.Target)
+	if err := c3ValueImports(c.Target); err != nil {
+		return err
+	}
+	return c3ReflectImports(c.Target)
+}
+
+// c3ReflectImports: references given as reflect types of generic instantiations (reflect spells the package paths of type
+// arguments in its own escaped form): exactly the mentioned packages are imported, under valid distinct names, and every
+// qualifier of the text is bound
+var c3ReflectDone = map[string]bool{}
+
+func c3ReflectImports(target string) error {
+	// the list is fixed: once per target package and process is enough (replays always run it)
+	if c3ReflectDone[target] {
+		return nil
+	}
+	if err := c3ReflectImportsOnce(target); err != nil {
+		return err
+	}
+	c3ReflectDone[target] = true
+	return nil
+}
+
+func c3ReflectImportsOnce(target string) error {
+	const fx = "vt/internal/fx/"
+	for _, tc := range []struct {
+		rt    reflect.Type
+		paths []string
+	}{
+		{reflect.TypeOf(alpha.Box[yamlv3.Kind]{}), []string{fx + "alpha", fx + "yaml.v3"}},
+		{reflect.TypeOf(alpha.Pair[yamlv3.Kind, texttemplate.Template]{}), []string{fx + "alpha", fx + "yaml.v3", "text/template"}},
+		{reflect.TypeOf(map[yamlv3.Kind]alpha.Triple[yamlv3.Node, alpha.Box[yamlv3.Kind], htmltemplate.Template]{}), []string{fx + "alpha", fx + "yaml.v3", "html/template"}},
+		{reflect.TypeOf([]betav1.List[alpha.Pair[yamlv3.Kind, kit1.Opt]]{}), []string{fx + "beta/v1", fx + "alpha", fx + "yaml.v3", fx + "one/go-kit"}},
+		{reflect.TypeOf(alpha.Pair[kit1.Level, kit2.Opt]{}), []string{fx + "alpha", fx + "one/go-kit", fx + "two/go-kit"}},
+	} {
+		for _, pre := range [][]string{nil, {"example.com/x/yaml", "example.com/yamlv3", "example.com/tpl/template", "example.com/gokit"}} {
+			tracker := namer.NewDefaultImportTracker()
+			for _, p := range pre {
+				tracker.AddType(gengotypes.Ref(p, "Pre"))
+			}
+			buf := &bytes.Buffer{}
+			w := gengo.NewSnippetWriter(buf, namer.NameSystems{"raw": namer.NewRawNamer(target, tracker)})
+			if p := ev.Panics(func() { w.Render(snippet.ID(tc.rt)) }); p != nil {
+				return fmt.Errorf("rendering the reflect type %s panics: %v", tc.rt, p)
+			}
+			text := buf.String()
+			want := map[string]bool{}
+			for _, p := range append(append([]string{}, tc.paths...), pre...) {
+				if p != target {
+					want[p] = true
+				}
+			}
+			imports := tracker.Imports()
+			if err := checkImportTable(imports, want); err != nil {
+				return fmt.Errorf("the reflect type %s renders as %q: %w", tc.rt, text, err)
+			}
+			for _, m := range regexp.MustCompile(`([\pL_][\pL\pN_]*)\.[\pL_]`).FindAllStringSubmatch(text, -1) {
+				if _, ok := tracker.PathOf(m[1]); !ok {
+					return fmt.Errorf("the reflect type %s renders as %q, but the qualifier %q is not bound by the import table %v", tc.rt, text, m[1], imports)
+				}
+			}
+		}
+	}
+	return nil
 }
 
 // c3ValueImports: value literals of nil/empty collections and pointers over foreign named types - whatever text is chosen for
